@@ -117,6 +117,27 @@ def strategy_(draw, tier):
                                     str(matches), str(block), str(mapq)] + tags))
     order = draw(st.permutations(range(len(lines))))
     lines = [lines[i] for i in order]
+    if draw(st.integers(0, 4)) == 0:
+        # the same alignment listed twice in a row is two records
+        k_ = draw(st.integers(0, len(lines) - 1))
+        lines.insert(k_, lines[k_])
+    if draw(st.integers(0, 5)) == 0:
+        # a file that starts with a dozen records without a CIGAR and has records with one further down
+        plain = [l for l in lines if "\tcg:Z:" not in l]
+        if plain:
+            head = []
+            for j in range(12):
+                f = plain[j % len(plain)].split("\t")
+                head.append("\t".join(f))
+            lines = head + [l for l in lines if "\tcg:Z:" in l] + plain
+    if draw(st.integers(0, 4)) == 0:
+        # the comment after the read name may differ from record to record (pass=1, pass=2): it is not part of the name
+        out_ = []
+        for j, l in enumerate(lines):
+            f = l.split("\t")
+            f[0] = f[0].split(" ")[0] + draw(st.sampled_from(["", " pass=%d" % j, " ch=%d x" % (j % 3)]))
+            out_.append("\t".join(f))
+        lines = out_
     # make sure one record is primary
     if not any(is_primary(l) for l in lines):
         f = lines[0].split("\t")
